@@ -4,6 +4,17 @@
 #include "explorer.hpp"
 #include "history.hpp"
 
+// ALLOCATOR DIMENSION of the owning bitset: the same source is built a second time with -DC03_DIRTY_ALLOC; in that build the
+// owning world is an xdynamic_bitset<B, c03::DirtyAlloc<B>> (construct(p) without arguments default-initialises, allocate()
+// hands out memory filled with the byte given by --fill), and the WHOLE alphabet of build_owning runs over it, judged by
+// std::vector<bool> as before: every storage-creating site must produce the right bits no matter what the memory held.
+#include "dirty_alloc.hpp"
+#ifdef C03_DIRTY_ALLOC
+template <class B> struct own_alloc { typedef c03::DirtyAlloc<B> type; };
+#else
+template <class B> struct own_alloc { typedef std::allocator<B> type; };
+#endif
+
 #include <algorithm>
 #include <cstdint>
 #include <set>
@@ -182,7 +193,8 @@ static std::vector<std::pair<std::string, std::vector<bool>>> gallery(size_t n, 
 template <class B>
 struct OW
 {
-    xtl::xdynamic_bitset<B> bs;
+    typedef xtl::xdynamic_bitset<B, typename own_alloc<B>::type> BS;
+    BS bs;
     std::vector<bool> m;
     std::string key() const
     {
@@ -209,7 +221,7 @@ template <class B>
 void build_owning(vf::Explorer<OW<B>>& ex, size_t S, bool full_gallery, bool all_indices)
 {
     typedef OW<B> W;
-    typedef xtl::xdynamic_bitset<B> BS;
+    typedef typename W::BS BS;
     const size_t w = sizeof(B) * 8;
     auto add = [&ex](const std::string& kind, const std::string& name, std::function<bool(W&, Errs&)> f) {
         ex.add_op(kind, name, [f](W& wd, Errs& e) {
@@ -241,6 +253,12 @@ void build_owning(vf::Explorer<OW<B>>& ex, size_t S, bool full_gallery, bool all
         add("resize", "resize(" + str(s) + ",false)", [s](W& x, Errs&) { x.bs.resize(s, false); x.m.resize(s, false); return true; });
     }
     add("ctor", "ctor{}", [](W& x, Errs&) { x.bs = BS(); x.m.clear(); return true; });
+#ifdef C03_DIRTY_ALLOC
+    add("ctor", "ctor(alloc)", [](W& x, Errs&) { x.bs = BS(typename BS::allocator_type()); x.m.clear(); return true; });
+    for (size_t s : sizes)
+        add("ctor", "ctor(" + str(s) + ",alloc)", [s](W& x, Errs&) { typename BS::allocator_type a; x.bs = BS(s, a); x.m.assign(s, false); return true; });
+    add("ctor", "ctor({1,0,1},alloc)", [S](W& x, Errs&) { if (S < 3) return false; typename BS::allocator_type a; x.bs = BS({true, false, true}, a); x.m = {true, false, true}; return true; });
+#endif
     add("ctor", "ctor{1}", [](W& x, Errs&) { x.bs = BS({true}); x.m = {true}; return true; });
     add("ctor", "ctor{0,1,1}", [S](W& x, Errs&) { if (S < 3) return false; x.bs = BS({false, true, true}); x.m = {false, true, true}; return true; });
     add("assign", "assign{1,0,1}", [S](W& x, Errs&) { if (S < 3) return false; x.bs.assign({true, false, true}); x.m = {true, false, true}; return true; });
@@ -613,14 +631,22 @@ struct Opts
     long long max_states = 1LL << 40;
     bool full_gallery = false;
     double deadline = 1e18;
+    unsigned fill = 0xFF;   // C03_DIRTY_ALLOC build: the byte allocate() fills its memory with
 };
+
+static std::string hex2(unsigned v) { char b[8]; std::snprintf(b, sizeof b, "%02X", v & 0xFFu); return b; }
 
 template <class B>
 void run_owning(const Opts& o)
 {
     vf::Explorer<OW<B>> ex;
     ex.prop = "C03";
+#ifdef C03_DIRTY_ALLOC
+    c03::alloc_stats::fill() = static_cast<unsigned char>(o.fill);
+    ex.inst = std::string(bname<B>::n()) + "/dirty" + hex2(o.fill) + "-S" + str(o.S);
+#else
     ex.inst = std::string(bname<B>::n()) + "/S" + str(o.S);
+#endif
     ex.max_depth = o.depth;
     ex.max_states = o.max_states;
     ex.deadline_s = o.deadline;
@@ -629,6 +655,15 @@ void run_owning(const Opts& o)
     if (!o.replay_trace.empty() || o.mode == "replay") { ex.replay(inits, o.replay_trace); return; }
     ex.run(inits);
     ex.summarize(o.depth == (1 << 30));
+#ifdef C03_DIRTY_ALLOC
+    // the allocator dimension's own counters (the BFS counters above are added to the totals of the check)
+    vf::stat("dirty_alloc_states", (long long)ex.worlds.size());
+    vf::stat("dirty_alloc_transitions", ex.transitions);
+    vf::stat("dirty_alloc_allocations", c03::alloc_stats::allocations());
+    vf::stat("dirty_alloc_blocks_value_constructed", c03::alloc_stats::value_constructs());
+    vf::stat("dirty_alloc_blocks_default_inserted", c03::alloc_stats::default_inits());
+    vf::stat("dirty_alloc_explorations", 1);
+#endif
 }
 
 template <class B>
@@ -687,6 +722,7 @@ int main(int argc, char** argv)
         else if (a == "--max-states") o.max_states = atoll(argv[++i]);
         else if (a == "--full-gallery") o.full_gallery = true;
         else if (a == "--deadline") o.deadline = atof(argv[++i]);
+        else if (a == "--fill") o.fill = unsigned(std::strtoul(argv[++i], nullptr, 16));
         else if (a == "--replay")
         {
             o.mode = "replay";
@@ -697,11 +733,22 @@ int main(int argc, char** argv)
             block = o.replay_inst.substr(0, sl);
             std::string rest = o.replay_inst.substr(sl + 1);
             if (rest[0] == 'S') { kind = "owning"; o.S = size_t(atoi(rest.c_str() + 1)); }
+            else if (rest.compare(0, 5, "dirty") == 0)   // <block>/dirty<FILL>-S<n>: the C03_DIRTY_ALLOC build
+            {
+                kind = "owning";
+                o.fill = unsigned(std::strtoul(rest.substr(5, 2).c_str(), nullptr, 16));
+                o.S = size_t(atoi(rest.c_str() + rest.find("-S") + 2));
+            }
             else if (rest[0] == 'f') { kind = "fault"; o.S = size_t(atoi(rest.c_str() + 5)); }
             else { kind = "view"; o.S = size_t(atoi(rest.c_str() + 4)); }
         }
     }
+#ifdef C03_DIRTY_ALLOC
+    // this build only carries the owning world (over DirtyAlloc); views have no allocator, the fault part has its own
+#define DISPATCH(T, NAME) if (block == NAME) { if (kind == "owning") run_owning<T>(o); else { std::printf("the C03_DIRTY_ALLOC build only knows --kind owning\n"); return 2; } }
+#else
 #define DISPATCH(T, NAME) if (block == NAME) { if (kind == "owning") run_owning<T>(o); else if (kind == "fault") run_fault<T>(o); else run_view<T>(o); }
+#endif
     DISPATCH(uint8_t, "u8")
     DISPATCH(uint16_t, "u16")
     DISPATCH(uint32_t, "u32")
